@@ -83,7 +83,7 @@ def masked_underflow(m, x):
 class C15(core.Check):
     pid = 'C15'
     driver = 'drv_c15'
-    quick_cases = 300
+    quick_cases = 600
     thorough_cases = 6000
     rule = ('one case = one layer (FTTransformerConvs / TabTransformerConv / ExcelFormerConv / TromptConv / '
             'ExcelFormerDecoder / TromptDecoder) with random hyper-parameters (channels 2-8, heads 1-2, layers 1-2, '
@@ -121,7 +121,7 @@ class C15(core.Check):
             if c % heads:
                 c += 1
             ncols = rng.randint(1, 5)
-            B0 = rng.choice([0, 1, 2, 3, 4, 3, 2])
+            B0 = rng.choice([0, 1, 2, 3, 4, 3, 2, 4, 3, 2])
             ikind, idx = nngen.gen_idx(rng, B0)
             perm = list(range(ncols))
             rng.shuffle(perm)
